@@ -152,6 +152,7 @@ func (e *Engine) RunPath(fn *ssa.Function, args []V, item WorkItem) (out PathOut
 	e.notes = nil
 	e.violation = nil
 	e.nondetMapOrder = false
+	e.overrides = nil
 	e.mapOrderBudget = -1
 	e.stdout.Reset()
 	for k := range e.wgCount {
